@@ -21,6 +21,9 @@ def run(patch, prop):
 if what in ('seeds', 'all'):
     out = ['| seed | property | verdict | first counterexample |', '|---|---|---|---|']
     dirs = sorted(glob.glob('/verif/seeded/*/'))
+    only = os.environ.get('SEED_ONLY')       # comma-separated names: refresh just these (RESULTS.md is then merged)
+    if only:
+        dirs = [d for d in dirs if os.path.basename(d.rstrip('/')) in only.split(',')]
     def one(d):
         name = os.path.basename(d.rstrip('/')); prop = name.split('-')[0]
         head, first = run(d + 'patch.diff', prop)
@@ -38,6 +41,9 @@ if what in ('seeds', 'all'):
         m = json.load(open(d + 'meta.json')); m['checks_run'] = [head, first[:300]]; json.dump(m, open(d + 'meta.json', 'w'), indent=1)
         out.append('| %s | %s | %s | %s |' % (name, prop, verdict, first[6:200].replace('|', '\\|')))
         print(name, verdict)
+    if only:
+        old = [l for l in open('/verif/seeded/RESULTS.md').read().splitlines()[4:] if l.startswith('| ') and l.split('|')[1].strip() not in only.split(',')]
+        out = out[:2] + sorted(old + out[2:])
     open('/verif/seeded/RESULTS.md', 'w').write('# Sub-agent seeded changes vs. the check of their property (quick tier, seed 0)\n\n' + '\n'.join(out) + '\n')
 if what in ('mutants', 'all'):
     out = ['| mutant | property | verdict | first counterexample |', '|---|---|---|---|']
